@@ -15,6 +15,13 @@ CHECKS = {
                   "header positions, 12-bit VLAN id, VLAN 0 folded, never a panic. The model is tied to the code by running both on the "
                   "same generated inputs on every run; an independent reference dissector is the failing-input oracle.",
              technique="Coq proof over a Gallina model of payload.rs + executed model/implementation correspondence", ref="4 (C19)"),
+ "C03": dict(text="Theorems C03_* (Properties/C03.v): for EVERY history of deliveries and ticks (induction over the history, no length bound) the "
+                  "three-register window of a key slot accepts exactly the deliveries whose counter exceeds every counter accepted before the "
+                  "tick preceding the most recent tick (history-only reference), a counter dies for good two ticks after something at least as "
+                  "new was accepted, newer-than-seen is always accepted; lifted to CryptoCore.decrypt / every_second / rotate_key. Tied to the "
+                  "code by running real CryptoCore pairs and the extracted model on the same histories each run; the history-only reference "
+                  "evaluated on the real accept/reject outcomes is the failing-input oracle. Node-level housekeeping tick is covered by the C08/C10 node model.",
+             technique="Coq proof (invariant by induction over histories) + executed model/implementation correspondence", ref="4 (C03)"),
 }
 NA_REASON = "check not built yet in this revision of /verif (planned, see DESIGN.md section 4); not claimed"
 def main():
